@@ -63,6 +63,17 @@ def register(ctx, prog):
                         ctx.ok(rule, body.id, "last_wills.insert from connection.last_will.take()", site=body.loc(t.get("sp")))
                     else:
                         ctx.violation(rule, body.id, "will source", "the registered will does not come from the connecting client's last_will", site=body.loc(t.get("sp")))
+                    # ... and only for a connection that IS registered: no refusal (connection limit, bad client id)
+                    # lies between storing the will and Slab::insert of the connection
+                    regs = [b2 for b2, t2 in body.calls() if re.search(r"^slab::Slab::<T>::insert$", callee_path(t2)) and not body.is_cleanup(b2)]
+                    if not regs:
+                        raise AnchorMissing("handle_new_connection: registration of the connection (Slab::insert) not found")
+                    if reachable_after(body, [bb], avoid_blocks=tuple(regs)) & set(return_blocks(body)):
+                        ctx.violation(rule, body.id, "will stored for a refused connect",
+                                      "a path stores the connecting client's will in last_wills and then refuses the connection (returns without registering it): nothing ever removes that entry, and the next connection of the client id — with or without a will of its own — inherits it",
+                                      site=body.loc(t.get("sp")))
+                    else:
+                        ctx.ok(rule, body.id, "every path from last_wills.insert registers the connection", site=body.loc(t.get("sp")))
                 else:
                     ctx.violation(rule, body.id, "last_wills." + name, "a will is registered outside handle_new_connection", site=body.loc(t.get("sp")))
             elif name in ("remove", "clear", "retain", "drain", "remove_entry"):
